@@ -1,5 +1,487 @@
 import QModel.Core
-/-! C07 — model (not built yet) -/
+import QModel.C16
+/-!
+# C07 — tensor products and embeddings (model of `tensor_product` and helpers in
+quara/objects/operators.py, `_K` / `_left_permutation_matrix` / `_check_cross_system_position` /
+`calc_permutation_matrix` / `convert_list_by_permutation_matrix` in quara/utils/matrix_util.py,
+`_permutation_matrix_from_qutrits_to_qubits` / `_calc_matrix_from_qutrits_to_qubits` in
+quara/objects/qoperation.py)
+
+Typed kernels (`Kmat`, `Mat.kron`, `kronVec`, `tensorHsHs`) carry their sizes in the type; the functions
+whose sizes are *computed at run time* in the code (`_left_permutation_matrix`, `calc_permutation_matrix`)
+work on `DMat` = a matrix packed with its dimensions, and matrix products check shapes exactly where numpy
+raises.  The head/tail identity sizes of `_left_permutation_matrix` are the coded `reduce(add, …)`.
+-/
 namespace QM.C07
-def handle (_args : List String) : Option String := none
+open QM
+
+/-! ## index arithmetic on `Fin (a*b)` (row-major pairs) -/
+
+@[inline] def fdiv {a b : Nat} (i : Fin (a * b)) : Fin a :=
+  ⟨i.val / b, Nat.div_lt_of_lt_mul (Nat.mul_comm a b ▸ i.isLt)⟩
+
+@[inline] def fmod {a b : Nat} (i : Fin (a * b)) : Fin b :=
+  ⟨i.val % b, Nat.mod_lt _ (by
+    rcases Nat.eq_zero_or_pos b with h | h
+    · exact absurd i.isLt (by simp [h])
+    · exact h)⟩
+
+section typed
+variable {K : Type}
+
+/-- `np.kron` of two vectors -/
+def kronVec [Mul K] {a b : Nat} (u : Vec K a) (v : Vec K b) : Vec K (a * b) :=
+  Vec.ofFn fun i => u.get (fdiv i) * v.get (fmod i)
+
+/-- `np.kron` of two matrices -/
+def kron [Mul K] {a b c d : Nat} (A : Mat K a b) (B : Mat K c d) : Mat K (a * c) (b * d) :=
+  Mat.ofFn fun i j => A.get (fdiv i) (fdiv j) * B.get (fmod i) (fmod j)
+
+/-- `_U(dim1, dim2, i, j)` -/
+def unitM [Zero K] [One K] (a b : Nat) (i : Fin a) (j : Fin b) : Mat K a b :=
+  Mat.ofFn fun r c => if r = i ∧ c = j then 1 else 0
+
+/-- `_K(dim1, dim2)`: `Σ_row Σ_col kron(U(dim1,dim2,row,col), U(dim2,dim1,col,row))` -/
+def Kmat [Add K] [Mul K] [Zero K] [One K] (a b : Nat) : Mat K (a * b) (b * a) :=
+  Mat.ofFn fun r c => fsum a fun row => fsum b fun col =>
+    (unitM (K := K) a b row col).get (fdiv r) (fdiv c) * (unitM (K := K) b a col row).get (fmod r) (fmod c)
+
+/-- `hs.flatten()` (row major) -/
+def flatten {m n : Nat} (A : Mat K m n) : Vec K (m * n) := Vec.ofFn fun i => A.get (fdiv i) (fmod i)
+
+/-- `vec.reshape((m, n))` -/
+def reshape {m n : Nat} (v : Vec K (m * n)) : Mat K m n :=
+  Mat.ofFn fun i j => v.get ⟨i.val * n + j.val, by
+    have hi := i.isLt; have hj := j.isLt
+    calc i.val * n + j.val < i.val * n + n := Nat.add_lt_add_left hj _
+      _ = (i.val + 1) * n := (Nat.succ_mul _ _).symm
+      _ ≤ m * n := Nat.mul_le_mul_right _ hi⟩
+
+/-- matrix–vector product with a matrix given entrywise (not materialised; used for the
+`(d1·d2)² × (d1·d2)²` vec-permutation of `_tensor_product_hs_hs`) -/
+def mulVecFn [Add K] [Mul K] [Zero K] {m n : Nat} (f : Fin m → Fin n → K) (v : Vec K n) : Vec K m :=
+  Vec.ofFn fun i => fsum n fun k => f i k * v.get k
+
+theorem hsSize₁ (n1 n2 : Nat) : n1 * n1 * (n2 * n2) = n1 * (n1 * n2) * n2 := by
+  rw [Nat.mul_assoc n1 n1, Nat.mul_assoc n1 (n1 * n2), Nat.mul_assoc n1 n2 n2]
+theorem hsSize₂ (n1 n2 : Nat) : n1 * (n2 * n1) * n2 = n1 * n2 * (n1 * n2) := by
+  rw [Nat.mul_assoc n1 (n2 * n1), Nat.mul_assoc n2 n1 n2, Nat.mul_assoc n1 n2 (n1 * n2)]
+
+/-- first half of `_tensor_product_hs_hs`: `from_vec = kron(hs1.flatten(), hs2.flatten())`,
+`permutation = kron(kron(eye(d1), _K(d2, d1)), eye(d2))`, `to_hs = (permutation @ from_vec).reshape` -/
+def tensorHsHs [Add K] [Mul K] [Zero K] [One K] {n1 n2 : Nat} (A : Mat K n1 n1) (B : Mat K n2 n2) :
+    Mat K (n1 * n2) (n1 * n2) :=
+  let fromVec : Vec K (n1 * n1 * (n2 * n2)) := kronVec (flatten A) (flatten B)
+  let km : Mat K (n2 * n1) (n1 * n2) := Kmat n2 n1
+  let perm : Fin (n1 * (n2 * n1) * n2) → Fin (n1 * (n1 * n2) * n2) → K := fun i j =>
+    ((if fdiv (fdiv i) = fdiv (fdiv j) then (1 : K) else 0) * km.get (fmod (fdiv i)) (fmod (fdiv j)))
+      * (if fmod i = fmod j then 1 else 0)
+  let toVec : Vec K (n1 * (n2 * n1) * n2) := mulVecFn perm (fromVec.cast (hsSize₁ n1 n2))
+  reshape (toVec.cast (hsSize₂ n1 n2))
+
+end typed
+
+/-! ## matrices whose sizes are computed at run time -/
+
+inductive Err
+  | shape       -- numpy matmul / reshape dimension mismatch (ValueError)
+  | index       -- IndexError
+  | dupName     -- CompositeSystem: duplicate ElementalSystem name
+  | typeErr     -- unsupported type combination
+  | emptyReduce -- reduce() of empty sequence
+  | fuel        -- model artefact: loop bound exhausted (never happens, see `calcPerm_terminates`)
+  | dist (e : QM.C16.Err)
+deriving Repr, DecidableEq
+
+def Err.toString : Err → String
+  | .shape => "shape" | .index => "index" | .dupName => "dupName" | .typeErr => "type"
+  | .emptyReduce => "emptyReduce" | .fuel => "fuel" | .dist e => e.toString
+
+structure DMat (K : Type) where
+  r : Nat
+  c : Nat
+  m : Mat K r c
+
+namespace DMat
+variable {K : Type}
+
+def eye [Zero K] [One K] (n : Nat) : DMat K := ⟨n, n, Mat.one⟩
+
+def kron [Mul K] (A B : DMat K) : DMat K := ⟨A.r * B.r, A.c * B.c, C07.kron A.m B.m⟩
+
+/-- `A @ B`; numpy raises ValueError on a dimension mismatch -/
+def mul [Add K] [Mul K] [Zero K] (A B : DMat K) : Except Err (DMat K) :=
+  if h : A.c = B.r then .ok ⟨A.r, B.c, A.m.mul (h ▸ B.m)⟩ else .error .shape
+
+def transpose (A : DMat K) : DMat K := ⟨A.c, A.r, A.m.transpose⟩
+
+def map {L : Type} (f : K → L) (A : DMat K) : DMat L := ⟨A.r, A.c, Mat.ofFn fun i j => f (A.m.get i j)⟩
+
+def toList? {α : Type} (l : List α) (n : Nat) : Option (Vector α n) :=
+  if h : l.length = n then some ⟨l.toArray, by simp [h]⟩ else none
+
+/-- `A @ v` for a 1-d array -/
+def mulVecL [Add K] [Mul K] [Zero K] (A : DMat K) (v : List K) : Except Err (List K) :=
+  match toList? v A.c with
+  | some w => .ok (A.m.mulVec w).toList
+  | none => .error .shape
+
+def entries (A : DMat K) : List K := A.m.toList.flatMap (·.toList)
+
+end DMat
+
+def sumL (l : List Nat) : Nat := l.foldl (· + ·) 0
+def prodL (l : List Nat) : Nat := l.foldl (· * ·) 1
+
+section perm
+variable {K : Type} [Add K] [Mul K] [Zero K] [One K]
+
+/-- `_left_permutation_matrix(position, size_list)` **as coded**: head/tail identity sizes are
+`reduce(add, …)` of the neighbouring sizes. -/
+def leftPerm (position : Nat) (sizes : List Nat) : Except Err (DMat K) := do
+  let head := if position < 2 then 1 else sumL (sizes.take (position - 1))
+  let sp ← match sizes[position]? with | some s => pure s | none => throw Err.index
+  -- Python: size_list[position - 1] with position = 0 would wrap to the last element; position ≥ 1 here
+  let sq ← match sizes[position - 1]? with | some s => pure s | none => throw Err.index
+  let k : DMat K := ⟨sp * sq, sq * sp, Kmat sp sq⟩
+  let tail := if position < sizes.length - 1 then sumL (sizes.drop (position + 1)) else 1
+  return ((DMat.eye head).kron k).kron (DMat.eye tail)
+
+/-- the same with the sizes a vec-permutation needs (products); used in theorems and as the proposed patch -/
+def leftPermFixed (position : Nat) (sizes : List Nat) : Except Err (DMat K) := do
+  let head := prodL (sizes.take (position - 1))
+  let sp ← match sizes[position]? with | some s => pure s | none => throw Err.index
+  let sq ← match sizes[position - 1]? with | some s => pure s | none => throw Err.index
+  let k : DMat K := ⟨sp * sq, sq * sp, Kmat sp sq⟩
+  let tail := prodL (sizes.drop (position + 1))
+  return ((DMat.eye head).kron k).kron (DMat.eye tail)
+
+end perm
+
+/-- `_check_cross_system_position`: first position whose name is smaller than its predecessor's -/
+def checkCrossFrom : Nat → Nat → List Nat → Option Nat
+  | _, _, [] => none
+  | pos, former, x :: xs => if former > x then some pos else checkCrossFrom (pos + 1) x xs
+
+def checkCross : List Nat → Option Nat
+  | [] => none
+  | x :: xs => checkCrossFrom 1 x xs
+
+/-- `l[p-1], l[p] = l[p], l[p-1]` -/
+def swapAt {α : Type} (l : List α) (p : Nat) : List α :=
+  match l[p - 1]?, l[p]? with
+  | some a, some b => (l.set (p - 1) b).set p a
+  | _, _ => l
+
+/-- the `while` loop of `calc_permutation_matrix` (fuel = a bound on the number of adjacent swaps) -/
+def calcPermLoop {K : Type} [Add K] [Mul K] [Zero K] [One K]
+    (lp : Nat → List Nat → Except Err (DMat K)) :
+    Nat → List Nat → List Nat → DMat K → Except Err (DMat K)
+  | 0, _, _, _ => .error .fuel
+  | fuel + 1, order, sizes, perm =>
+    match checkCross order with
+    | none => .ok perm
+    | some pos => do
+        let left ← lp pos sizes
+        let perm' ← left.mul perm
+        calcPermLoop lp fuel (swapAt order pos) (swapAt sizes pos) perm'
+
+/-- `calc_permutation_matrix(system_order, size_list)` -/
+def calcPerm {K : Type} [Add K] [Mul K] [Zero K] [One K] (order sizes : List Nat) : Except Err (DMat K) :=
+  calcPermLoop leftPerm (order.length * order.length + 1) order sizes (DMat.eye (prodL sizes))
+
+def calcPermFixed {K : Type} [Add K] [Mul K] [Zero K] [One K] (order sizes : List Nat) :
+    Except Err (DMat K) :=
+  calcPermLoop leftPermFixed (order.length * order.length + 1) order sizes (DMat.eye (prodL sizes))
+
+/-- `convert_list_by_permutation_matrix`: `new[row] = old[col]` for the first `col` with a 1 in that row;
+`none` = the placeholder `True` the code leaves when a row has no 1. -/
+def convertList {K α : Type} [DecidableEq K] [One K] (P : DMat K) (old : List α) :
+    Except Err (List (Option α)) :=
+  (List.finRange P.r).mapM fun row =>
+    match (List.finRange P.c).find? fun col => P.m.get row col = 1 with
+    | none => pure none
+    | some col => match old[col.val]? with
+      | some x => pure (some x)
+      | none => throw Err.index
+
+/-! ## objects and the per-type tensor products -/
+
+/-- an elemental system: (name, dim) -/
+abbrev ESys := Nat × Nat
+
+def insertSorted (x : ESys) : List ESys → List ESys
+  | [] => [x]
+  | y :: ys => if x.1 ≤ y.1 then x :: y :: ys else y :: insertSorted x ys
+
+/-- `CompositeSystem(e_sys_list)`: duplicate names rejected, systems sorted by name -/
+def mkCSys (l : List ESys) : Except Err (List ESys) :=
+  if (l.map (·.1)).Nodup then .ok (l.foldr insertSorted []) else .error .dupName
+
+abbrev Dist := QM.C16.Dist
+
+inductive TObj
+  | state (sys : List ESys) (v : List Rat)
+  | gate (sys : List ESys) (hs : DMat Rat)
+  | povm (sys : List ESys) (nums : List Nat) (vecs : List (List Rat))
+  | mprocess (sys : List ESys) (shape : List Nat) (hss : List (DMat Rat))
+  | ensemble (states : List (List ESys × List Rat)) (d : Dist)
+
+def kronL (u v : List Rat) : List Rat := u.flatMap fun x => v.map fun y => x * y
+
+def ratPerm (order sizes : List Nat) : Except Err (DMat Rat) := do
+  let p ← calcPerm (K := Int) order sizes
+  return p.map fun (z : Int) => (z : Rat)
+
+def sq (n : Nat) : Nat := n * n
+
+/-- `_tensor_product_State_State` -/
+def tensorStateState (s1 : List ESys) (v1 : List Rat) (s2 : List ESys) (v2 : List Rat) :
+    Except Err (List ESys × List Rat) := do
+  let e := s1 ++ s2
+  let c ← mkCSys e
+  let perm ← ratPerm (e.map (·.1)) (e.map fun x => sq x.2)
+  let v ← perm.mulVecL (kronL v1 v2)
+  return (c, v)
+
+/-- `_tensor_product_hs_hs(hs1, hs2, e_sys_list)` -/
+def tensorHs (hs1 hs2 : DMat Rat) (e : List ESys) : Except Err (DMat Rat) := do
+  -- hs.shape[0] is used for both dimensions: a non-square input fails in the matmul / reshape
+  if h : hs1.r = hs1.c ∧ hs2.r = hs2.c then
+    let A : Mat Rat hs1.r hs1.r := h.1 ▸ hs1.m
+    let B : Mat Rat hs2.r hs2.r := h.2 ▸ hs2.m
+    let t : DMat Rat := ⟨hs1.r * hs2.r, hs1.r * hs2.r, tensorHsHs A B⟩
+    let perm ← ratPerm (e.map (·.1)) (e.map fun x => sq x.2)
+    let pt ← perm.mul t
+    pt.mul perm.transpose
+  else .error .shape
+
+/-- `_tensor_product_Povm_Povm` -/
+def tensorPovmPovm (s1 : List ESys) (n1 : List Nat) (vs1 : List (List Rat))
+    (s2 : List ESys) (n2 : List Nat) (vs2 : List (List Rat)) :
+    Except Err (List ESys × List Nat × List (List Rat)) := do
+  let e := s1 ++ s2
+  let c ← mkCSys e
+  let raw := vs1.flatMap fun a => vs2.map fun b => kronL a b
+  let order := e.map (·.1)
+  let perm ← ratPerm order (e.map fun x => sq x.2)
+  let vecs ← raw.mapM fun v => perm.mulVecL v
+  let nums := n1 ++ n2
+  let permO ← calcPerm (K := Int) order nums
+  let vecs' ← convertList permO vecs
+  -- a row without a 1 would leave the placeholder `True` in the list and the Povm constructor fails
+  let vecs'' ← vecs'.mapM fun o => match o with | some v => pure v | none => throw Err.typeErr
+  let newNums := ((order.zip nums).foldr insertSorted []).map (·.2)
+  return (c, newNums, vecs'')
+
+def tensorObj : TObj → TObj → Except Err TObj
+  | .gate s1 h1, .gate s2 h2 => do
+      let c ← mkCSys (s1 ++ s2)
+      let hs ← tensorHs h1 h2 (s1 ++ s2)
+      return .gate c hs
+  | .gate s1 h1, .mprocess s2 shape hss => do
+      let c ← mkCSys (s1 ++ s2)
+      let hss' ← hss.mapM fun h2 => tensorHs h1 h2 (s1 ++ s2)
+      return .mprocess c shape hss'
+  | .mprocess s1 shape hss, .gate s2 h2 => do
+      let c ← mkCSys (s1 ++ s2)
+      let hss' ← hss.mapM fun h1 => tensorHs h1 h2 (s1 ++ s2)
+      return .mprocess c shape hss'
+  | .mprocess s1 sh1 hss1, .mprocess s2 sh2 hss2 => do
+      let c ← mkCSys (s1 ++ s2)
+      -- as coded: `for hs2 in elem2.hss: for hs1 in elem1.hss`, shape = shape1 + shape2
+      let hss' ← (hss2.flatMap fun h2 => hss1.map fun h1 => (h1, h2)).mapM fun (h1, h2) =>
+        tensorHs h1 h2 (s1 ++ s2)
+      return .mprocess c (sh1 ++ sh2) hss'
+  | .state s1 v1, .state s2 v2 => do
+      let (c, v) ← tensorStateState s1 v1 s2 v2
+      return .state c v
+  | .state s1 v1, .ensemble sts d => do
+      let sts' ← sts.mapM fun (s2, v2) => tensorStateState s1 v1 s2 v2
+      return .ensemble sts' d
+  | .ensemble sts d, .state s2 v2 => do
+      let sts' ← sts.mapM fun (s1, v1) => tensorStateState s1 v1 s2 v2
+      return .ensemble sts' d
+  | .ensemble sts1 d1, .ensemble sts2 d2 => do
+      let pairs := (sts1.zip d1.ps).flatMap fun a => (sts2.zip d2.ps).map fun b => (a, b)
+      let sts' ← pairs.mapM fun (a, b) => tensorStateState a.1.1 a.1.2 b.1.1 b.1.2
+      let ps := pairs.map fun (a, b) => a.2 * b.2
+      let d ← match QM.C16.ctor ps (d1.shape ++ d2.shape) QM.C16.epsValidate with
+        | .ok d => pure d | .error e => throw (Err.dist e)
+      return .ensemble sts' d
+  | .povm s1 n1 vs1, .povm s2 n2 vs2 => do
+      let (c, nums, vecs) ← tensorPovmPovm s1 n1 vs1 s2 n2 vs2
+      return .povm c nums vecs
+  | _, _ => .error .typeErr
+
+/-- `tensor_product(*elements)`: left fold (`none` = fewer than two elements) -/
+def tensorFold : List TObj → Option (Except Err TObj)
+  | [] => none
+  | [_] => none
+  | x :: xs => some (xs.foldl (fun acc e => acc.bind fun t => tensorObj t e) (.ok x))
+
+/-! ## qutrit → qubit embedding -/
+
+/-- all words of length `k` over `{0,1,2,3}` in `itertools.product` order -/
+def words : Nat → List (List Nat)
+  | 0 => [[]]
+  | k + 1 => [0, 1, 2, 3].flatMap fun a => (words k).map fun w => a :: w
+
+/-- `_permutation_matrix_from_qutrits_to_qubits`: for each qubit index its qutrit-block index -/
+def embedIndexLoop : List (List Nat) → Nat → Nat → Nat → List Nat
+  | [], _, _, _ => []
+  | w :: ws, num, nIncl, nExcl =>
+    if w.contains 3 then (3 ^ num + (nIncl + 1) - 1) :: embedIndexLoop ws num (nIncl + 1) nExcl
+    else ((nExcl + 1) - 1) :: embedIndexLoop ws num nIncl (nExcl + 1)
+
+def embedIndex (num : Nat) : List Nat := embedIndexLoop (words num) num 0 0
+
+/-- `_calc_matrix_from_qutrits_to_qubits`: `P · [[M, 0], [0, coeff·I]] · Pᵀ`, entrywise:
+entry `(i,j)` is the block entry at `(π i, π j)`. `mat` is the `3^num × 3^num` input as a function. -/
+def embedEntry {K : Type} [Zero K] (num : Nat) (mat : Nat → Nat → K) (coeff : K) (i j : Nat) : Option K := do
+  let pi ← (embedIndex num)[i]?
+  let pj ← (embedIndex num)[j]?
+  let t := 3 ^ num
+  if pi < t ∧ pj < t then some (mat pi pj)
+  else if pi = pj then some coeff else some 0
+
+/-! ## driver -/
+
+def chunksL {α : Type} (k : Nat) : Nat → List α → List (List α)
+  | 0, _ => []
+  | m + 1, l => l.take k :: chunksL k m (l.drop k)
+
+def toDMat? (l : List Rat) (r c : Nat) : Option (DMat Rat) :=
+  if l.length ≠ r * c then none else do
+    let rows ← (chunksL c r l).mapM fun row => DMat.toList? row c
+    let m ← DMat.toList? rows r
+    some ⟨r, c, m⟩
+
+def parseSys? (s : String) : Option (List ESys) := do
+  -- name:dim,name:dim
+  if s = "-" then some [] else
+  (s.splitOn ",").mapM fun t => match t.splitOn ":" with
+    | [a, b] => do some (← parseNat? a, ← parseNat? b)
+    | _ => none
+
+def showSys (l : List ESys) : String := showList (fun (x : ESys) => s!"{x.1}:{x.2}") l
+
+def parseObj? (s : String) : Option TObj :=
+  match s.splitOn ";" with
+  | ["S", sys, v] => do some (.state (← parseSys? sys) (← parseList? parseRat? v))
+  | ["G", sys, n, hs] => do
+      let n ← parseNat? n
+      some (.gate (← parseSys? sys) (← toDMat? (← parseList? parseRat? hs) n n))
+  | ["P", sys, nums, m, n, vs] => do
+      let m ← parseNat? m; let n ← parseNat? n
+      let l ← parseList? parseRat? vs
+      if l.length ≠ m * n then none
+      some (.povm (← parseSys? sys) (← parseList? parseNat? nums) (chunksL n m l))
+  | ["M", sys, shape, m, n, hss] => do
+      let m ← parseNat? m; let n ← parseNat? n
+      let l ← parseList? parseRat? hss
+      if l.length ≠ m * (n * n) then none
+      let hss ← (chunksL (n * n) m l).mapM fun c => toDMat? c n n
+      some (.mprocess (← parseSys? sys) (← parseList? parseNat? shape) hss)
+  | ["E", sys, shape, ps, isZero, m, n, sts] => do
+      -- all states of the ensemble live on the same composite system
+      let m ← parseNat? m; let n ← parseNat? n
+      let l ← parseList? parseRat? sts
+      if l.length ≠ m * n then none
+      let sys ← parseSys? sys
+      let d : Dist := { ps := ← parseList? parseRat? ps, shape := ← parseList? parseNat? shape,
+                        isZero := isZero = "true" }
+      some (.ensemble ((chunksL n m l).map fun v => (sys, v)) d)
+  | _ => none
+
+def showObj : TObj → String
+  | .state sys v => s!"S {showSys sys} {showList showRat v}"
+  | .gate sys hs => s!"G {showSys sys} {hs.r} {showList showRat hs.entries}"
+  | .povm sys nums vecs => s!"P {showSys sys} {showList toString nums} {vecs.length} {showList showRat vecs.flatten}"
+  | .mprocess sys shape hss =>
+      s!"M {showSys sys} {showList toString shape} {hss.length} {showList showRat (hss.flatMap (·.entries))}"
+  | .ensemble sts d =>
+      s!"E {showList toString d.shape} {d.isZero} {showList showRat d.ps} {sts.length} {showList showSys (sts.map (·.1))} {showList showRat (sts.flatMap (·.2))}"
+
+def showRes (r : Except Err TObj) : String :=
+  match r with
+  | .ok x => "ok " ++ showObj x
+  | .error e => "err " ++ e.toString
+
+/-- reverse-polish grouping: a number pushes that object, `x` pops `b` then `a` and pushes `a ⊗ b` -/
+def rpn (objs : Array TObj) : List String → List (Except Err TObj) → Option (Except Err TObj)
+  | [], [r] => some r
+  | [], _ => none
+  | "x" :: ts, b :: a :: st => rpn objs ts ((do let p ← a; let q ← b; tensorObj p q) :: st)
+  | "x" :: _, _ => none
+  | t :: ts, st => do
+      let i ← parseNat? t
+      let o ← objs[i]?
+      rpn objs ts (.ok o :: st)
+
+def showDMatInt (r : Except Err (DMat Int)) : String :=
+  match r with
+  | .ok p => s!"ok {p.r} {p.c} {showList toString p.entries}"
+  | .error e => "err " ++ e.toString
+
+def handle (args : List String) : Option String :=
+  match args with
+  | ["K", a, b] => do
+      let a ← parseNat? a; let b ← parseNat? b
+      some (showDMatInt (.ok ⟨a * b, b * a, Kmat (K := Int) a b⟩))
+  | ["leftperm", pos, sizes] => do
+      some (showDMatInt (leftPerm (K := Int) (← parseNat? pos) (← parseList? parseNat? sizes)))
+  | ["cross", order] => do
+      match checkCross (← parseList? parseNat? order) with
+      | none => some "ok none"
+      | some p => some s!"ok {p}"
+  | ["calcperm", order, sizes] => do
+      some (showDMatInt (calcPerm (K := Int) (← parseList? parseNat? order) (← parseList? parseNat? sizes)))
+  | ["calcpermdim", order, sizes] => do
+      -- only the verdict and the dimensions (large cases)
+      match calcPerm (K := Int) (← parseList? parseNat? order) (← parseList? parseNat? sizes) with
+      | .ok p => some s!"ok {p.r} {p.c}"
+      | .error e => some ("err " ++ e.toString)
+  | ["convert", order, sizes, old] => do
+      let old ← parseList? parseNat? old
+      let order ← parseList? parseNat? order
+      let sizes ← parseList? parseNat? sizes
+      match (do let p ← calcPerm (K := Int) order sizes
+                convertList p old : Except Err _) with
+      | .ok l => some s!"ok {showList (fun (o : Option Nat) => match o with | some x => toString x | none => "T") l}"
+      | .error e => some ("err " ++ e.toString)
+  | ["hshs", n1, n2, a, b] => do
+      let n1 ← parseNat? n1; let n2 ← parseNat? n2
+      let A ← toDMat? (← parseList? parseRat? a) n1 n1
+      let B ← toDMat? (← parseList? parseRat? b) n2 n2
+      if h : A.r = A.c ∧ B.r = B.c then
+        let t : DMat Rat := ⟨A.r * B.r, A.r * B.r, tensorHsHs (h.1 ▸ A.m : Mat Rat A.r A.r) (h.2 ▸ B.m : Mat Rat B.r B.r)⟩
+        some s!"ok {t.r} {showList showRat t.entries}"
+      else none
+  | "tensor" :: k :: rest => do
+      let k ← parseNat? k
+      if rest.length < k then none
+      let objs ← (rest.take k).mapM parseObj?
+      let r ← rpn objs.toArray (rest.drop k) []
+      some (showRes r)
+  | "fold" :: objs => do
+      let objs ← objs.mapM parseObj?
+      match tensorFold objs with
+      | none => some "err tooFew"
+      | some r => some (showRes r)
+  | ["embedindex", num] => do
+      some s!"ok {showList toString (embedIndex (← parseNat? num))}"
+  | ["embed", num, coeff, mat] => do
+      let num ← parseNat? num
+      let coeff ← parseRat? coeff
+      let l ← parseList? parseRat? mat
+      let t := 3 ^ num
+      if l.length ≠ t * t then none
+      let arr := l.toArray
+      let f : Nat → Nat → Rat := fun i j => arr.getD (i * t + j) 0
+      let n := 4 ^ num
+      let es ← (List.range n).mapM fun i => (List.range n).mapM fun j => embedEntry num f coeff i j
+      some s!"ok {showList showRat es.flatten}"
+  | _ => none
+
 end QM.C07
